@@ -6,3 +6,17 @@ pub fn vec_with_capacity<T>(n: usize) -> (r: Vec<T>)
     requires n <= isize::MAX,   // exact for 1-byte elements (the only use: Vec<u8>); necessary for all
     ensures r@.len() == 0,
 { unimplemented!() }
+/// `v.drain(a..b);` with the iterator dropped at once (R8): removes exactly that range
+#[verifier::external_body]
+pub fn vec_remove_range<T>(v: &mut Vec<T>, a: usize, b: usize)
+    requires a <= b <= old(v)@.len(),
+    ensures final(v)@ == old(v)@.subrange(0, a as int) + old(v)@.subrange(b as int, old(v)@.len() as int),
+{ unimplemented!() }
+pub mod vec_axioms {
+    use vstd::prelude::*;
+    /// a Vec never holds more than isize::MAX bytes (Rust allocation invariant; not in vstd)
+    #[verifier::external_body]
+    pub broadcast proof fn axiom_vec_u8_len(v: &Vec<u8>)
+        ensures #[trigger] v@.len() <= isize::MAX
+    {}
+}
